@@ -1508,6 +1508,11 @@ pub fn render_layout(p: &Program, rng: &mut Rng, o: LayoutOpts) -> String {
                     gap.push_str(nl);
                 }
                 gap.push_str(&" ".repeat(rng.below(5)));
+            } else if o.blank_lines && c >= 96 {
+                // a blank line in the middle of a statement or declaration (the formatter drops it)
+                gap.push_str(nl);
+                gap.push_str(nl);
+                gap.push_str(&" ".repeat(rng.below(7)));
             } else {
                 gap.push(' ');
             }
